@@ -296,3 +296,36 @@ func VerifC02Seq() {
 	c02compare(s, ref, "seq")
 	zz.Reach("end")
 }
+
+// VerifC02Tempo: a tempo event with any 24-bit value (0 included) between two channel messages: the event, its delta
+// and everything after it are decoded like any other meta event.
+func VerifC02Tempo() {
+	d1, d2, d3 := zz.U8("delta1")&0x7F, zz.U8("delta2")&0x7F, zz.U8("delta3")&0x7F
+	typ := zz.U8("typ")
+	zz.Assume(typ == 0x51 || typ == 0x54 || typ == 0x58 || typ == 0x59)
+	body := []byte{d1, 0x90, zz.U8("k1") & 0x7F, 1}
+	p0, p1, p2 := zz.U8("p0"), zz.U8("p1"), zz.U8("p2")
+	if zz.Choice("payload-all-zero", 2) == 1 {
+		p0, p1, p2 = 0, 0, 0 // concrete, so that float code depending on the value (an infinite tempo) is executed exactly
+	}
+	body = append(body, d2, 0xFF, typ, 3, p0, p1, p2)
+	body = append(body, d3, 0x80, zz.U8("k2")&0x7F, 0)
+	body = append(body, 0, 0xFF, 0x2F, 0)
+	file := append(c02header(zz.U16("format")&1, 1, 480), c02chunk("MTrk", body)...)
+	ref := refDecode(file, refOpts{})
+	zz.Assert(ref.ok, "generator-produces-valid-files")
+	if !ref.ok {
+		return
+	}
+	s, err, panicked := c02read(file)
+	zz.Assert(!panicked, "no-panic-on-valid-file")
+	if panicked {
+		return
+	}
+	zz.Assert(err == nil, "valid-file-accepted")
+	if err != nil || s == nil {
+		return
+	}
+	c02compare(s, ref, "tempo")
+	zz.Reach("end")
+}
